@@ -1,6 +1,7 @@
 package c01
 
 import (
+	"bytes"
 	"encoding/binary"
 	"fmt"
 	"sort"
@@ -9,6 +10,7 @@ import (
 
 	"pgregory.net/rapid"
 
+	"seehuhn.de/go/sfnt/cff"
 	genfont "verif/harness/gen/font"
 	"verif/harness/ref/refcmap"
 	"verif/harness/ref/refglyf"
@@ -48,7 +50,7 @@ func TestC01Foreign(t *testing.T) {
 		var ops []string
 		nOps := rapid.IntRange(1, 4).Draw(t, "nOps")
 		for i := 0; i < nOps; i++ {
-			op := rapid.SampledFrom([]string{"name", "name", "cmap", "cmap", "post", "os2", "drop", "extra", "hmtx", "glyf", "maxp", "head"}).Draw(t, "op")
+			op := rapid.SampledFrom([]string{"name", "name", "cmap", "cmap", "post", "os2", "drop", "extra", "hmtx", "glyf", "maxp", "head", "cff-widths"}).Draw(t, "op")
 			if respell(t, op, tables, n, c) {
 				ops = append(ops, op)
 			}
@@ -225,6 +227,31 @@ func respell(t *rapid.T, op string, tables map[string][]byte, numGlyphs int, c *
 		nh := append([]byte(nil), head...)
 		binary.BigEndian.PutUint16(nh[50:], uint16(nf))
 		tables["glyf"], tables["loca"], tables["head"] = g2, l2, nh
+		return true
+	case "cff-widths":
+		// a CFF table that carries fractional advance widths and no hmtx
+		// table beside it (what a PDF producer embeds): the widths are then
+		// taken from the CFF table
+		co, ok := c.Font.Outlines.(*cff.Outlines)
+		if !ok {
+			return false
+		}
+		o2 := *co
+		o2.Glyphs = make([]*cff.Glyph, len(co.Glyphs))
+		for i, g := range co.Glyphs {
+			g2 := *g
+			if rapid.IntRange(0, 2).Draw(t, "fractionalWidth") == 0 {
+				g2.Width += float64(rapid.SampledFrom([]int{1, 4, 8, 12, 15}).Draw(t, "sixteenths")) / 16
+			}
+			o2.Glyphs[i] = &g2
+		}
+		var buf bytes.Buffer
+		if err := (&cff.Font{FontInfo: c.Font.GetFontInfo(), Outlines: &o2}).Write(&buf); err != nil {
+			return false
+		}
+		tables["CFF "] = buf.Bytes()
+		delete(tables, "hmtx")
+		delete(tables, "hhea")
 		return true
 	case "maxp":
 		d, ok := tables["maxp"]
